@@ -113,7 +113,7 @@ func genC10(t *simrt.Tape, tier string) Scenario {
 		sc.Targets = append(sc.Targets, t.Choose(sc.NSubs))
 	}
 	if sc.Map {
-		sc.NDerive = 1 + t.Choose(2)
+		sc.NDerive = t.Choose(3) // (0: the derived publisher gets its first subscribers at run time, possibly from two threads at once)
 		sc.Map2 = t.Bool(1, 3)
 	}
 	if sc.Handler {
